@@ -46,7 +46,7 @@ def one(sid):
         if a.returncode:
             return sid, {'error': 'patch does not apply: ' + (a.stdout + a.stderr)[-200:]}
         t0 = time.time()
-        demo = sh('/venv/bin/python', os.path.join(d, 'demo.py'), w).returncode
+        demo = sh('/venv/bin/python', os.path.join(d, 'demo.py'), w, cwd=base).returncode
         p = sh('python3-vt', '-m', 'vp.check', prop, '--tier', 'quick', cwd=v, env=dict(os.environ, VERIF_REPO=w))
         lines = [l for l in p.stdout.splitlines() if l.startswith('VIOLATION')]
         proof, bounded = [], []
